@@ -206,6 +206,9 @@ func rangeIPs(l []string) []string {
 	return l
 }
 
+// errRefused: the library's validation refused the parameter record of a setparams event (logged, not an error).
+var errRefused = fmt.Errorf("refused")
+
 // apply performs one event on the real scorer.
 func apply(ps *pubsub.VerifPeerScore, app map[peer.ID]float64, e event) error {
 	switch e.E {
@@ -241,9 +244,10 @@ func apply(ps *pubsub.VerifPeerScore, app map[peer.ID]float64, e event) error {
 		if err := json.Unmarshal(e.Tp, &tp); err != nil {
 			return err
 		}
+		// what Topic.SetScoreParams does: validate, and only then hand the record to the scorer
 		r := tp.real()
 		if err := pubsub.VerifValidateTopicScoreParams(r); err != nil {
-			return fmt.Errorf("topic parameters of the scenario rejected by the library: %w", err)
+			return errRefused
 		}
 		return ps.SetTopicScoreParams(e.T, r)
 	case "tick":
@@ -308,13 +312,21 @@ func replay(t *testing.T, out *vh.Out, idx int, s scenario) {
 					}
 				}()
 				err = apply(ps, app, e)
+				refused := err == errRefused
+				if refused {
+					err = nil
+				}
 				if err == nil {
 					el := time.Since(start)
 					now := int64(el / tick)
 					if el%tick != 0 {
 						now = -1
 					}
-					out.Emit(line(e, now, observe(ps, s.Peers, s.Topics)))
+					ln := line(e, now, observe(ps, s.Peers, s.Topics))
+					if e.E == "setparams" {
+						ln["refused"] = refused
+					}
+					out.Emit(ln)
 				}
 			}()
 			if pmsg != "" {
